@@ -1789,12 +1789,30 @@ class StateEngine(object):
 
         # ----------------------------------------------------------------------
 
-        def handle_terminal_state(state_type, event, id=None):
+        def handle_terminal_state(state_type, event, id=None, raw_input=data):
             """
             This function handles the boilerplate needed for terminal states.
             """
             #print("---- handle_terminal_state ----")
             execution_arn = context["Execution"]["Id"]
+
+            """
+            The output of a terminal state is subject to the same quota as the
+            output of a state that has a successor (see change_state), else it
+            would become the execution's output, or a branch's result, unchecked.
+            """
+            if (not event.get("failed", False) and
+                len(json.dumps(event["data"])) > MAX_DATA_LENGTH):
+                error_message = ("{} an error occurred while executing the state "
+                                 "\"{}\": A result with a size exceeding the maximum "
+                                 "number of characters service limit "
+                                 "was returned.").format(execution_arn, context["State"]["Name"])
+                self.logger.error(error_message)
+                event["data"] = raw_input  # Retry and Catch work on the raw input.
+                handle_error(state, "States.DataLimitExceeded", error_message)
+                if id != None:
+                    self.event_dispatcher.acknowledge(id)
+                return
 
             data = event["data"]
             error = (event.get("failed", False) and
@@ -3548,7 +3566,18 @@ class StateEngine(object):
             execution, but event_ids still references the held event ids.
             """
             if state.get("End"):
-                handle_terminal_state(state_type, event)
+                if len(json.dumps(event["data"])) > MAX_DATA_LENGTH:
+                    # As above, for the output of a terminal state.
+                    error_message = ("{} an error occurred while executing the state "
+                                     "\"{}\": A result with a size exceeding the maximum "
+                                     "number of characters service limit "
+                                     "was returned.").format(execution_arn, current_state)
+                    self.logger.error(error_message)
+                    event["data"] = data
+                    restore_retry_info()
+                    handle_error(state, "States.DataLimitExceeded", error_message)
+                else:
+                    handle_terminal_state(state_type, event)
 
             # Acknowledge the events for each branch's terminal state
             #print("Result - event_ids:")
